@@ -1,6 +1,7 @@
 package sender
 
 import (
+	"fmt"
 	"io/fs"
 	"os"
 	"os/user"
@@ -82,8 +83,33 @@ type scopedWalker struct {
 	strip     string
 }
 
+// requestedInDir verifies that the requested path stays below dir once its
+// symbolic links are resolved. os.Root refuses links that lead out of the
+// root, but follows a link in the last position whose target ends in a slash
+// to wherever the next link points (Go 1.25).
+func requestedInDir(dir, requested string) error {
+	dirReal, err := filepath.EvalSymlinks(dir)
+	if err != nil {
+		return nil // OpenRoot reports it
+	}
+	reqReal, err := filepath.EvalSymlinks(filepath.Join(dir, requested))
+	if err != nil {
+		return nil // the walk reports it
+	}
+	sep := string(os.PathSeparator)
+	if reqReal != dirReal && !strings.HasPrefix(reqReal, strings.TrimSuffix(dirReal, sep)+sep) {
+		return fmt.Errorf("%q leads out of %q", requested, dir)
+	}
+	return nil
+}
+
 func (s *scopedWalker) walk() error {
 	if s.source == nil {
+		if err := requestedInDir(s.localDir, s.requested); err != nil {
+			s.st.Logger.Printf("  %v", err)
+			s.ioError(err)
+			return nil
+		}
 		root, err := os.OpenRoot(s.localDir)
 		if err != nil {
 			s.st.Logger.Printf("  OpenRoot(localDir=%q): %v", s.localDir, err)
